@@ -2,7 +2,8 @@
    umap/sparse.py applied to two canonical CSR rows equals the dense metric of the current umap/distances.py applied to the densified
    vectors, for all rows of every length (over R).  Chain: L_sparse (translated sparse source = model merge/metric, iteration budget not
    exhausted) ; P_C13 (model sparse metric = model dense metric on densified vectors) ; C13_dense_is_C12 ; L_distances (model dense
-   metric = translated dense source).  Linked this way: euclidean, manhattan, chebyshev, hamming, jaccard, cosine, correlation (the
+   metric = translated dense source).  Linked this way: all 19 sparse registry metrics (session 4 added the binary family, minkowski,
+   bray_curtis, russellrao, hellinger, canberra); first: euclidean, manhattan, chebyshev, hamming, jaccard, cosine, correlation (the
    current, repaired text of sparse_correlation), ll_dirichlet (L_sparse_lld ; P_C13.C13_ll_dirichlet ; L_distances.src_ll_dirichlet_eq;
    under the hypotheses of C13_ll_dirichlet: no empty row, stored values > 0.9, coordinate-wise products 0 or > 0.9). *)
 From Coq Require Import List ZArith Bool Arith Lia Reals Lra.
@@ -124,6 +125,24 @@ Corollary C13_src_russellrao (I : list Z -> list Z -> list Z) : (0 < n)%nat ->
 Proof.
   intros Hn HI'. rewrite (src_sparse_russellrao_eq RNum I a b HI' n). rewrite (C13_russellrao a b n Hn Ca Cb Ba Bb).
   dense_side src_russellrao_eq.
+Qed.
+
+Corollary C13_src_hellinger (I : list Z -> list Z -> list Z) : nonneg a -> nonneg b ->
+  (length (arr_intersect (inds RNum a) (inds RNum b)) <= length (I (zi RNum a) (zi RNum b)))%nat ->
+  src_sparse_hellinger RNum I (zi RNum a) (vals RNum a) (zi RNum b) (vals RNum b) = (src_hellinger RNum da db, true).
+Proof.
+  intros Na Nb HI'. rewrite (src_sparse_hellinger_eq RNum I a b HI').
+  destruct (C13_hellinger a b n Ca Cb Ba Bb Na Nb) as (E & _). rewrite E.
+  f_equal. dense_side (src_hellinger_eq RNum).
+Qed.
+
+Corollary C13_src_canberra (I : list Z -> list Z -> list Z) :
+  (let D := sparse_diff RNum a b in let S := sparse_sum RNum (map_vals RNum (nabs RNum) a) (map_vals RNum (nabs RNum) b) in
+   (length (arr_intersect (inds RNum D) (inds RNum S)) <= length (I (zi RNum D) (zi RNum S)))%nat) ->
+  src_sparse_canberra RNum U I (zi RNum a) (vals RNum a) (zi RNum b) (vals RNum b) = (src_canberra RNum da db, true).
+Proof.
+  intros HI'. rewrite (src_sparse_canberra_eq RNum U I a b HU HI'). rewrite (C13_canberra a b n Ca Cb Ba Bb).
+  f_equal. dense_side src_canberra_eq.
 Qed.
 
 (* cosine: the product row is written into the buffer arr_intersect returns (only its length matters) *)
